@@ -114,6 +114,25 @@ def h_eq_values__reach(i0: int, i1: int, q: int, ns: int, style: int):
     assert not (len(res) == 1 and ns == 1)  # twin: a doc-namespace query selecting exactly one job must be reachable
 
 
+def h_eq3(i0: int, i1: int, i2: int, q: int, kind: int):
+    """thorough: three jobs (index slots shared by three values), equality / $type / $in / $ne"""
+    assert 0 <= i0 < 10 and 0 <= i1 < 10 and 0 <= i2 < 10 and 0 <= q < 10 and 0 <= kind <= 3 and part_ok(q)
+    fresh_path()
+    v0, v1, v2, qq, kind = pick(D, i0), pick(D, i1), pick(D, i2), pick(D, q), ci(kind, 0, 3)
+    c = {"j0": ({"a": v0}, None), "j1": ({"a": v1}, {}), "j2": ({"a": [v2] if kind == 3 else v2}, None)}
+    if kind == 0:
+        flt = {"a": qq}
+    elif kind == 1:
+        flt = {"a": {"$type": pick(TYPES, q % 6)}}
+    elif kind == 2:
+        flt = {"a": {"$in": [qq, -1.0]}}
+    else:
+        flt = {"$or": [{"a": {"$ne": qq}}, {"a": [qq]}]}
+    ok = agree(c, flt)
+    reached()
+    assert ok
+
+
 def h_eq_shapes(s0: int, s1: int, fs: int, i0: int, i1: int, q: int, ns: int):
     """shapes: missing / scalar / list / nested mapping in the jobs x scalar / list / dotted / nested-mapping spelling in the filter"""
     assert 0 <= s0 <= 3 and 0 <= s1 <= 3 and 0 <= fs <= 4 and 0 <= i0 <= 2 and 0 <= i1 <= 2 and 0 <= q <= 2 and 0 <= ns <= 1 and part_ok(fs)
@@ -407,6 +426,7 @@ HARNESSES = [
     dict(name="h_end2end", timeout=(400, 900), parts=(8, 8)),
     dict(name="h_eq_values", twin="h_eq_values__reach", timeout=(400, 900), parts=(5, 10)),
     dict(name="h_eq_shapes", timeout=(400, 900), parts=(5, 5)),
+    dict(name="h_eq3", timeout=(1500, 1500), parts=(10, 10), tiers=("thorough",)),
     dict(name="h_cmp_int", twin="h_cmp_int__reach", timeout=(400, 1500), parts=(6, 6)),
     dict(name="h_cmp_num", timeout=(400, 900), parts=(2, 4)),
     dict(name="h_in", timeout=(400, 900), parts=(5, 10)),
